@@ -1,1 +1,57 @@
-fn main(){}
+//! wsm — E2 in-process monitors (DESIGN.md 3.3).
+//!
+//!   wsm <PROPERTY> --tier quick|thorough|miri --seed N
+//!   wsm <PROPERTY> --replay <case descriptor...>
+//!
+//! Output: a line protocol (EVAL, DISTINCT, RULE, SAMPLE, COUNTER, HIST,
+//! VIOLATION, INCONCLUSIVE, NOTE, EXHAUSTIVE) parsed by ./check.
+//! Exit status: 0 no violation, 1 violation(s), 2 usage error.
+mod c04;
+mod objs;
+mod util;
+
+use util::Rep;
+
+fn main() {
+    util::install_panic_hook();
+    let args: Vec<String> = std::env::args().skip(1).collect();
+    if args.is_empty() {
+        eprintln!("usage: wsm <PROPERTY> --tier quick|thorough|miri --seed N | wsm <PROPERTY> --replay ...");
+        std::process::exit(2);
+    }
+    let prop = args[0].clone();
+    let mut tier = "quick".to_string();
+    let mut seed = 1u64;
+    let mut replay: Option<Vec<String>> = None;
+    let mut i = 1;
+    while i < args.len() {
+        match args[i].as_str() {
+            "--tier" => {
+                tier = args[i + 1].clone();
+                i += 2;
+            }
+            "--seed" => {
+                seed = args[i + 1].parse().unwrap_or(1);
+                i += 2;
+            }
+            "--replay" => {
+                replay = Some(args[i + 1..].to_vec());
+                break;
+            }
+            _ => {
+                eprintln!("unknown argument {}", args[i]);
+                std::process::exit(2);
+            }
+        }
+    }
+    let rep: Rep = match (prop.as_str(), &replay) {
+        ("C04", None) => c04::run(&tier, seed),
+        ("C04", Some(a)) => c04::replay(a),
+        _ => {
+            eprintln!("unknown property {}", prop);
+            std::process::exit(2);
+        }
+    };
+    rep.print();
+    std::process::exit(if rep.violations.is_empty() { 0 } else { 1 });
+}
